@@ -1,9 +1,13 @@
 SPECIFICATION Spec
 CONSTANTS
-  Models <- ModelsABC
+  Models <- ModelsABCD
   Caps <- CapsAll
   GMasks <- AllGroups
   SMasks <- SiteMasks
+  JMasks <- NoSites
+  TMasks <- NoSites
+  AMasks <- NoSites
+  FlagSets <- NoFlags
   Statics <- BothBool
   CatMasks <- ThreeCats
   QPos <- Q02
